@@ -217,6 +217,11 @@ def run_case(ctx, g, rng):
             after = path.read_bytes()
             w = {"operation": meth, "leg": leg, "failing_row": k, "rows": n, "column": col, "flags": kw,
                  "records": [spec.rec_dict(r) for r in recs]}
+            if leg == "injected" and count[0] < k:
+                # the implementation did not go through the public scalar method k times: the failpoint never fired and
+                # this leg says nothing (the two legs with genuinely failing cells still decide atomicity)
+                S.counters["wl:fault:injected-failpoint-not-reached"] += 1
+                continue
             if o[0] != "raise":
                 violation(["C16"], "fault-enumeration", "failing-cell-does-not-make-the-file-operation-raise", **w)
             elif after != before:
